@@ -313,7 +313,8 @@ def judge_pack_node(rec, nid, kind, n, c, acts, put_by, got_by, emit, pending, w
     nput = sum(1 for e in emit if e[1] == "put"); ndrop = sum(1 for e in emit if e[1] == "drop")
     pend = sum(1 for a in acts[-3:] if any(x.startswith("put ") for x in a["calls"]))
     # the blocking branches count a unit as processed just before the put, the others when the push process has ended
-    if not (-1 <= nput - proc <= max(1, pend)):
+    # (a unit counted but not put can only be seen when the put itself raised)
+    if not ((0 if rec.crash is None else -1) <= nput - proc <= max(1, pend)):
         v("C18", "counter", f"{kind} {nid}: num_item_processed {proc} but {nput} units were put downstream")
     if disc != ndrop:
         v("C18", "counter", f"{kind} {nid}: num_item_discarded {disc} but {ndrop} units were dropped")
